@@ -65,9 +65,9 @@ CHECKS["C15"] = dict(
    level="exploration",
    text="Seeded search over operation histories: a pool of up to six live (Value, model) pairs seeded from parsed roots (in-place and copying parse paths), macro- and conversion-built values and empty containers; a drawn history of 2-48 steps over the whole public mutation API of Array, Object (incl. the Entry API) and Value (IndexMut with every index type, get_mut, pointer/pointer_mut incl. empty and absent paths, take, clone of roots and subtrees, cross-assignment between pool members, into_array/into_object, equality), including operations the reference rejects. After every step the returned result is compared with the model's and ALL pool members are dumped through the public read API and compared with their models, which is what shows that mutating one value never changes another (the document it was cloned or taken from, earlier clones). Rejected operations must fail (None or documented panic) and change nothing. The simulated heap checks frees and leaks of the copy-on-write promotion.",
    design_ref="DESIGN.md section 3 (C15)",
-   note="Trusted: the reference model (vectors and ordered key/value lists compared as unordered maps). Single simulated caller. No duplicate keys. Capacity and member order of promoted objects are not compared. Every container operation is entered both through as_array_mut/as_object_mut (promotes first) and through a typed Array/Object handle taken out of its place; array::IntoIter is held to vec::IntoIter incl. as_slice/as_mut_slice (finding F14). Miri sample in the thorough tier only.",
+   note="Trusted: the reference model (vectors and ordered key/value lists compared as unordered maps). Single simulated caller. No duplicate keys. Capacity and member order of promoted objects are not compared. Every container operation is entered both through as_array_mut/as_object_mut (promotes first) and through a typed Array/Object handle taken out of its place; array::IntoIter is held to vec::IntoIter incl. as_slice/as_mut_slice (finding F14). A Miri sample runs in both tiers.",
    technique="deterministic simulation: seeded operation histories against a lock-step array/map reference model with a full dump of every live value after every step; simulated heap (ledger/poison/leak check)",
-   engine="dsim dom (+ miri sample, thorough)",
+   engine="dsim dom + miri sample",
 )
 
 PENDING = {
